@@ -316,6 +316,12 @@ def main(argv=None):
             print("replay: property %s held on %s" % (prop_id, replay_path))
             return 0
 
+        # replay files of earlier runs of this property are stale once it is re-run
+        rdir = os.path.join(evidence_dir(), "replays")
+        if os.path.isdir(rdir):
+            for fn in os.listdir(rdir):
+                if fn.startswith(prop_id + "-"):
+                    os.remove(os.path.join(rdir, fn))
         specs = mod.shards(tier, seed)
         jobs = [(modname, spec, prop_id, tier, seed) for spec in specs]
         nproc = max(1, min(NCPU, len(jobs), int(os.environ.get("VERIF_JOBS", NCPU))))
